@@ -413,7 +413,7 @@ class Decoder(Coder):
                                       descriptor, nbits, scale_powered,
                                       refval_factor):
         self.process_numeric(state, bit_reader, descriptor, nbits, scale_powered,
-                             state.new_refvals[descriptor.id] * refval_factor)
+                             state.new_refvals.get(descriptor.id, descriptor.refval) * refval_factor)
 
     def process_constant(self, state, bit_reader, descriptor, value):
         (self.process_constant_compressed if state.is_compressed else
